@@ -47,6 +47,7 @@ def run(ctx):
         # of being dropped from the (insert-only) cached list - the join census of C12, restricted to the cache
         import c12
         ctx.guard("short-circuit" + tag, c12.fan_outs, ctx, crate, tag, "resolvo::solver::cache::", 1)
+        ctx.guard("result-must-use" + tag, c12.results_used, ctx, crate, tag, ("resolvo::solver::cache::",), 0)
 
 
 def sorted_provenance(ctx, crate, crs, tag):
